@@ -219,15 +219,19 @@ func runC23(c *mon.Ctx) {
 		close(ch)
 		wg.Wait()
 	}
+	deepDone := make(chan float64, 1)
+	go func() {
+		t := time.Now()
+		runDeep(c, j)
+		deepDone <- time.Since(t).Seconds()
+	}()
 	t := time.Now()
 	runAll("fast", jobs, 1500)
 	c.Set("wall_fast_s", time.Since(t).Seconds())
 	t = time.Now()
 	runAll("slow", slow, 400)
 	c.Set("wall_slow_s", time.Since(t).Seconds())
-	t = time.Now()
-	runDeep(c, j)
-	c.Set("wall_deep_s", time.Since(t).Seconds())
+	c.Set("wall_deep_s", <-deepDone) // ran concurrently with the batches above
 
 	j.finish()
 }
@@ -235,36 +239,62 @@ func runC23(c *mon.Ctx) {
 // ---- deep nesting -----------------------------------------------------------------
 
 func runDeep(c *mon.Ctx, j *judge) {
-	specs := []deepSpec{
+	// (a) moderate depths under the standard child limits
+	moderate := []deepSpec{
 		{"container", 8}, {"container", 500}, {"container", c.N(2000, 5000)},
-		{"gzip", 8}, {"gzip", 300}, {"gzip", c.N(1500, 6000)},
-		{"mixed", 64}, {"mixed", c.N(1500, 6000)},
+		{"gzip", 8}, {"gzip", 300}, {"gzip", c.N(1500, 4000)},
+		{"mixed", 64}, {"mixed", c.N(1500, 4000)},
 	}
-	inputs := make([][]byte, len(specs))
-	for i, s := range specs {
-		inputs[i], _ = json.Marshal(s)
+	// (b) depths the size limits of one message allow (an element of a container may be 1 MiB = 43 690 nested
+	// containers; a message may be 16 MiB). Every level keeps a copy of its body alive while the inner levels are
+	// handled, so d levels hold ~12*d^2 bytes (containers) / ~16*d^2 bytes (gzip). The child is confined to a
+	// 2 GiB address space (RLIMIT_AS; the machine is shared, the full 43 690 levels would need 22.9 GB).
+	deepest := []deepSpec{{"container", 10000}}
+	if !c.Quick() {
+		deepest = append(deepest, deepSpec{"container", 43690}, deepSpec{"gzip", 8000})
 	}
-	outs := mon.RunBatch(c, "c23-deep", "deep", inputs, mon.BatchOpts{MemLimitMB: 4096, Timeout: 20 * time.Minute})
-	for i, o := range outs {
-		s := specs[i]
-		switch {
-		case o.Class == "ok":
-			var dr deepRes
-			_ = json.Unmarshal(o.Result, &dr)
-			if dr.Build != "" {
-				c.Inconclusive("deep payload build: " + dr.Build)
-				continue
+	run := func(name string, specs []deepSpec, o mon.BatchOpts) {
+		inputs := make([][]byte, len(specs))
+		for i, s := range specs {
+			inputs[i], _ = json.Marshal(s)
+		}
+		outs := mon.RunBatch(c, "c23-deep", name, inputs, o)
+		for i, o := range outs {
+			s := specs[i]
+			switch {
+			case o.Class == "ok":
+				var dr deepRes
+				_ = json.Unmarshal(o.Result, &dr)
+				if dr.Build != "" {
+					c.Inconclusive("deep payload build: " + dr.Build)
+					continue
+				}
+				c.Eval(1)
+				c.Distinct(fmt.Sprintf("deep/%s/depth=%d/err=%v/delivered=%d", s.Shape, dr.Depth, dr.Err != "", dr.OnMsg))
+				c.Sample(name, map[string]any{"spec": s, "result": dr})
+				if dr.Bytes > 0 {
+					c.Set(fmt.Sprintf("deep_%s_%d_alloc_per_payload_byte", s.Shape, dr.Depth), dr.Alloc/uint64(dr.Bytes))
+				}
+			case o.Class == "timeout" || o.Class == "missing":
+				c.Inconclusive(fmt.Sprintf("deep %v: %s", s, o.Class))
+			default:
+				c.Eval(1)
+				c.Violate("crash|"+o.Class+"|"+crashFrame(o.Stderr)+"|deep-"+s.Shape, map[string]any{"spec": s, "class": o.Class, "stderr": o.Stderr, "batch": name,
+					"child_limits": fmt.Sprintf("RLIMIT_AS %d MiB, GOMEMLIMIT %d MiB", o2as(name), o2as(name)*3/16),
+					"note": "payload = innermost updatesTooLong wrapped spec.depth times (container / gzip_packed / alternating); rebuilt deterministically by the c23-deep child; " +
+						"a container nest of depth d is 24*d+4 bytes long"})
 			}
-			c.Eval(1)
-			c.Distinct(fmt.Sprintf("deep/%s/depth=%d/err=%v/delivered=%d", s.Shape, dr.Depth, dr.Err != "", dr.OnMsg))
-			c.Sample("deep", map[string]any{"spec": s, "result": dr})
-		case o.Class == "timeout" || o.Class == "missing":
-			c.Inconclusive(fmt.Sprintf("deep %v: %s", s, o.Class))
-		default:
-			c.Violate("crash|"+o.Class+"|"+crashFrame(o.Stderr)+"|deep-"+s.Shape, map[string]any{"spec": s, "class": o.Class, "stderr": o.Stderr,
-				"note": "payload = innermost updatesTooLong wrapped spec.depth times (container / gzip_packed / alternating); rebuilt deterministically by the c23-deep child"})
 		}
 	}
+	run("deep", moderate, mon.BatchOpts{MemLimitMB: 4096, Timeout: 20 * time.Minute, MaxProcs: 2})
+	run("deepest", deepest, mon.BatchOpts{MemLimitMB: 512, Timeout: 20 * time.Minute, MaxProcs: 2})
+}
+
+func o2as(batch string) int {
+	if batch == "deepest" {
+		return 512 * 4
+	}
+	return 4096 * 4
 }
 
 // ---- judge ------------------------------------------------------------------------
@@ -618,9 +648,10 @@ func replay(c *mon.Ctx, j *judge) {
 	}
 	var rf struct {
 		Witness struct {
-			Mode string    `json:"mode"`
-			Case *tcase    `json:"case"`
-			Spec *deepSpec `json:"spec"`
+			Mode  string    `json:"mode"`
+			Case  *tcase    `json:"case"`
+			Spec  *deepSpec `json:"spec"`
+			Batch string    `json:"batch"`
 		} `json:"witness"`
 	}
 	if err := json.Unmarshal(data, &rf); err != nil {
@@ -630,7 +661,11 @@ func replay(c *mon.Ctx, j *judge) {
 	switch {
 	case rf.Witness.Spec != nil:
 		in, _ := json.Marshal(rf.Witness.Spec)
-		outs := mon.RunBatch(c, "c23-deep", "replay", [][]byte{in}, mon.BatchOpts{MemLimitMB: 4096})
+		lim := 4096
+		if rf.Witness.Batch == "deepest" {
+			lim = 512
+		}
+		outs := mon.RunBatch(c, "c23-deep", "replay", [][]byte{in}, mon.BatchOpts{MemLimitMB: lim, MaxProcs: 2})
 		for _, o := range outs {
 			c.Eval(1)
 			c.Distinct("replay/" + o.Class)
